@@ -22,7 +22,8 @@ CONSTANTS
 E0 == 4
 MinPairs == IF MinSet = "all" THEN {<<1, 1>>, <<2, 1>>, <<1, 2>>, <<2, 2>>}
             ELSE IF MinSet = "diag" THEN {<<1, 1>>, <<2, 2>>, <<2, 1>>}
-            ELSE IF MinSet = "two" THEN {<<1, 1>>, <<2, 2>>} ELSE {<<2, 2>>}
+            ELSE IF MinSet = "two" THEN {<<1, 1>>, <<2, 2>>}
+            ELSE IF MinSet = "low" THEN {<<1, 1>>} ELSE {<<2, 2>>}
 SwapOf(k) == CASE k = "default" -> <<>>
                [] k = "cap1"  -> <<[ep |-> E0, n |-> 1]>>
                [] k = "cap0"  -> <<[ep |-> E0 + 1, n |-> 0]>>
@@ -43,6 +44,9 @@ MCInit ==
          /\ conf = [nb |-> nb, minS |-> mp[1], minM |-> mp[2], cross |-> cr, fixEpoch |-> fe, balEpoch |-> be,
                     swap |-> SwapOf(sk)]
          /\ \E v \in SizeVectors(nb) :
+              \* calls that fail (some shard below its minimum) are kept only for the smallest size vectors
+              /\ \/ \A i \in 1..(nb + 1) : v[2 * i - 1] + v[2 * i] >= (IF i = nb + 1 THEN mp[2] ELSE mp[1])
+                 \/ FoldFunction(+, 0, v) <= 2
               /\ elig = MapOfSlots(v, nb, 1, dr)
               /\ wait = MapOfSlots(v, nb, 2, dr)
     /\ epoch = E0
@@ -83,10 +87,13 @@ WireMap(m) == LET ks == SortedKeys(m) IN [i \in DOMAIN ks |-> [sh |-> ks[i], l |
 WireIn(c) == [c EXCEPT !.elig = WireMap(c.elig), !.wait = WireMap(c.wait)]
 \* export: the input of every call (the expected result is recomputed by TLC when it validates the trace the
 \* harness records while replaying these inputs on the real shuffler)
-Hash(c) == Len(c.unstake) * 7 + Len(c.addl) * 3 + Len(c.new) + Len(c.rank) * 5 + c.minS + 2 * c.minM
-           + (IF c.cross THEN 1 ELSE 0) + c.fixEpoch + c.balEpoch * 2 + Len(c.swap)
-           + FoldSeq(LAMBDA x, acc : (acc * 3 + x) % 1009, 0, c.unstake \o c.addl)
-           + FoldSeq(LAMBDA x, acc : (acc * 5 + Len(x.l) + (x.sh % 7)) % 1013, 0, WireMap(c.elig) \o WireMap(c.wait))
+Mix(acc, x) == (acc * 31 + x + 7) % 1000003
+MixSeq(acc, sq) == FoldLeft(Mix, acc, sq)
+Hash(c) ==
+    LET lists == WireMap(c.elig) \o WireMap(c.wait)
+        h1 == MixSeq(MixSeq(MixSeq(MixSeq(17, c.unstake), <<999>> \o c.addl), <<998>> \o c.new), <<997>> \o c.rank)
+        h2 == FoldLeft(LAMBDA acc, x : MixSeq(Mix(acc, x.sh % 1000), x.l), h1, lists)
+    IN  MixSeq(h2, <<c.nb, c.minS, c.minM, IF c.cross THEN 1 ELSE 0, c.fixEpoch, c.balEpoch, Len(c.swap), c.epoch>>)
 EmitEdge == (Hash(call'.in) % ExportMod = 0) =>
                PrintT("@@B " \o ToJson(<<[a |-> "Update", in |-> WireIn(call'.in), out |-> [err |-> call'.out.err]]>>))
 ====
